@@ -253,7 +253,10 @@ def run(ctx):
             # whatever the seed: keyboard walks, symbols, years and a context string, so that the next training (over the same
             # rule directory) finds folders of categories it does not produce itself
             # ... and passwords in which white space ends an initial, a transition and an end n-gram of every size 2..4
-            pws = ['1qaz2wsx', 'zaq1!@#', 'pass1999', '#1love', '$$$', 'Ab12!', 'ab cd ', 'b b b', ' z z ', 'x\xa0y\xa0', 'ab cd '] + pws
+            # ... and terminals whose length occurs only next to a website / an e-mail address (structures the guesser does not use: the
+            # files are written all the same, and listed)
+            pws = ['1qaz2wsx', 'zaq1!@#', 'pass1999', '#1love', '$$$', 'Ab12!', 'ab cd ', 'b b b', ' z z ', 'x\xa0y\xa0', 'ab cd ',
+                   'www.google.com7777777', 'bob@gmail.com~~~~~'] + pws
         elif rep == 1:
             pws = ['password', 'hello', 'abc', 'Summer', 'password', 'пароль', 'яжяж1', 'пароль']      # cp1251: non-ASCII n-grams in every OMEN file
         tf = os.path.join(root, 'train.txt')
